@@ -226,10 +226,11 @@ def run(rep, facts, tier):
     RUN = 'state::State::run'
     allowed = {'state::State::context_close': 'mode', 'state::State::build1': 'mode', 'state::State::run_immediate': None,
                'repl::run_line::{closure#0}': None}
-    for caller in sorted(fx.callers().get(RUN, ())):
-        f = fx.fns.get(caller)
-        if f is None:
+    from .. import stepfx
+    for caller in sorted(stepfx.callers_seen_through(fx, V, RUN)):
+        if caller not in fx.fns:
             continue
+        f = V(caller)       # unnamed helpers between a drive function and run() are looked through
         if caller.startswith('repl::') or caller.startswith('c_api::'):
             continue
         ok = caller in allowed
